@@ -5,13 +5,18 @@
 set -u
 F="${1:?replay file}"
 HERE="$(cd "$(dirname "$0")" && pwd)"
+export GOFLAGS=-mod=mod GOPROXY=off GOSUMDB=off GOTOOLCHAIN=local CGO_ENABLED=1
+GO=go1.26.8
+command -v $GO >/dev/null 2>&1 || GO=/opt/veriftools/go1.26.8/bin/go
+# rebuild from /repo's current working tree, like the checks do
+(cd "$HERE/sim" && cp -f /repo/go.sum go.sum 2>/dev/null; mkdir -p "$HERE/bin")
 PROP=$(python3 -c "import json,sys;print(json.load(open(sys.argv[1]))['property'])" "$F" 2>/dev/null)
 if [ "$PROP" = C18 ]; then
-  [ -x "$HERE/bin/e4.test" ] || "$HERE/setup.sh" >/dev/null
+  (cd "$HERE/sim" && $GO test -c -race -tags verif -o "$HERE/bin/e4.test" ./e4 >"$HERE/bin/build-e4.log" 2>&1) || { echo "INFRA: build of e4.test failed"; cat "$HERE/bin/build-e4.log"; exit 2; }
   RD=$(mktemp -d /dev/shm/verif-race-XXXXXX 2>/dev/null || mktemp -d)
   VSIM_ARGS="[\"replay\",\"$F\"]" GOMAXPROCS=1 GORACE="log_path=$RD/r halt_on_error=0 exitcode=0 suppress_equal_stacks=0 suppress_equal_addresses=0 history_size=3" \
     "$HERE/bin/e4.test" -test.run='^TestE4$' -test.timeout=0 -test.count=1 | grep -v -E '^(--- FAIL: TestE4|FAIL$|PASS$|\s+testing\.go:[0-9]+: race detected)'
   rc=${PIPESTATUS[0]}; rm -rf "$RD"; exit $rc
 fi
-[ -x "$HERE/bin/vsim" ] || "$HERE/setup.sh" >/dev/null
+(cd "$HERE/sim" && $GO build -tags verif -o "$HERE/bin/vsim" ./cmd/vsim >"$HERE/bin/build.log" 2>&1) || { echo "INFRA: build of vsim failed"; cat "$HERE/bin/build.log"; exit 2; }
 exec "$HERE/bin/vsim" replay "$F"
